@@ -88,3 +88,4 @@ M("c08-tee-fork-inherits-yielded-flag", "C08", "itertools.py", "_TeeAsyncIterato
 M("c08-condition-default-lock-fast-acquire", "C08", SYNC, "Condition.__init__", "        self._lock = lock or Lock()", "        self._lock = lock or Lock(fast_acquire=True)", ["R08-e"])
 M("c08-lock-fast-acquire-default-true", "C08", SYNC, "Lock.__new__", "    def __new__(cls, *, fast_acquire: bool = False) -> Lock:", "    def __new__(cls, *, fast_acquire: bool = True) -> Lock:", ["R08-e"])
 M("c08-adapter-stores-inverted-flag", "C08", SYNC, "LockAdapter.__init__", "        self._fast_acquire = fast_acquire", "        self._fast_acquire = not fast_acquire", ["R08-e"])
+N("c08-n-functools-lock-flag-local", "C08", "functools.py", "AsyncLRUCacheWrapper.__call__", "    async def __call__(self, *args: P.args, **kwargs: P.kwargs) -> T:\n", "    async def __call__(self, *args: P.args, **kwargs: P.kwargs) -> T:\n        assert isinstance(self._always_checkpoint, bool)\n")
